@@ -143,7 +143,7 @@ def drawing_events(A, inp, m, fam, lab, seed, shift=0):
             nxt = where.get(below)
             below = None if nxt is None else (nxt.left if nxt.left is not None else nxt.right)
         if below is not None:
-            loss_cols.append([oidx0[below], br.color])
+            loss_cols.append([oidx0[below], br.color if isinstance(br.color, str) else "<none>"])
     colour_events = [dict(base, op="colours", col=col, drawn=drawn, losses=loss_cols, default="000000",
                           problems=problems[:2])]
     if fam == "dtl":   # extant objects are labelled <species>\\textsubscript{<id>}
